@@ -122,6 +122,7 @@ fn main() {
                     "histories" => record::gen_histories(&mut rec, &mut rng, n),
                     "fuzz" => record::gen_fuzz(&mut rec, &mut rng, n),
                     "threads" => record::gen_threads(&mut rec, &mut rng, n, threads_arg),
+                    "deep" => record::gen_deep(&mut rec, &mut rng, n),
                     other => {
                         eprintln!("unknown generator {other}");
                         std::process::exit(2);
